@@ -171,6 +171,23 @@ def builders_stay(ctx, rule):
 
 
 
+def simplify_rule(ctx, rule):
+    """simplify_path is unconditional and used on both the key and the probe side (shared with C14)"""
+    facts = ctx.facts
+    sp = ctx.anchor_fn(rule, "ignore_files::simplify_path")
+    vals = {(q.out, q.val) for q in pathx.Enum().paths(thir.root(sp))}
+    ctx.require(vals == {("val", "NormalizePath::normalize(dunce::simplified(path))")}, rule, "simplify-path", "simplify_path(p) = dunce::simplified(p).normalize() on every path",
+                sp.loc(sp.line), detail=str(sorted(vals, key=str))[:300],
+                fail="simplify_path no longer normalises unconditionally (%s): differently spelled paths of one directory get different trie keys, so the nearest ignore file is missed" % str(sorted(vals, key=str))[:200])
+    users = {}
+    for fname in ("get_applies_in_path", "IgnoreFilter::match_path"):
+        fn_ = ctx.anchor_fn(rule, "ignore_files::filter::" + fname)
+        users[fname] = sum(1 for g in [fn_] + facts.descendants(fn_) for c, _ in thir.calls_in(thir.root(g)) if strip_generics(c).endswith("ignore_files::simplify_path"))
+    ctx.require(all(v >= 1 for v in users.values()), rule, "simplify-path-used", "both the key side (get_applies_in_path) and the probe side (match_path) simplify their path", detail=str(users),
+                fail="a trie key or a probed path is no longer passed through simplify_path (%s)" % users)
+
+
+
 def run(ctx):
     ctx.level = "other"
     facts = ctx.facts
@@ -192,6 +209,8 @@ def run(ctx):
                       "early `?` return between taking and putting back cannot lose the patterns loaded so far")
     ctx.rule("R03.8", "one spelling per directory: every path used as a trie key or probed against it goes through simplify_path, which is "
                       "unconditionally dunce::simplified(path).normalize() (no fast path that lets `/o/./sub` or `/o//sub` through)")
+    ctx.rule("R03.9", "matcher selection in match_path: a consulted node is asked about the probed path itself (and is_dir); `path or any parent` "
+                      "matching is used exactly when the probed path lies under the filter's origin - decided on the probed path, not on the moving search cursor")
     ctx.rule("R03.5", "per-directory grouping: every GitignoreBuilder::add_line gets Some(applies_in) where applies_in is "
                       "get_applies_in_path(origin, file), and the compiled set is stored under that same directory's key")
 
@@ -383,19 +402,36 @@ def run(ctx):
     except Skip:
         pass
 
+    # ---- R03.9 matcher selection
+    try:
+        mp = ctx.anchor_fn("R03.9", IF + "::match_path")
+        UNDER = ("Result::is_ok(Path::strip_prefix(path, self.origin))", "Path::starts_with(path, self.origin)")
+        en9 = pathx.Enum(interesting=lambda d_: strip_generics(d_).endswith(("Gitignore::matched_path_or_any_parents", "Gitignore::matched")))
+        sel = set()
+        for q in en9.paths(thir.root(mp)):
+            for e in q.ev:
+                if e[0] != "loop":
+                    continue
+                for it in e[1]:
+                    under = None
+                    for x in it:
+                        if x[0] == "branch":
+                            core, neg = pathx.split_not(x[1].replace("^", ""))
+                            if core in UNDER:
+                                under = (x[2] != neg)
+                        elif x[0] == "call":
+                            sel.add((strip_generics(x[1]).split("::")[-1], tuple(pathx.desc(a).replace("^", "") for a in x[2]["a"]), under))
+        want9 = {("matched_path_or_any_parents", ("ignores.gitignore", "path", "is_dir"), True), ("matched", ("ignores.gitignore", "path", "is_dir"), False)}
+        ctx.require(sel == want9, "R03.9", "matcher-selection", "under the origin: matched_path_or_any_parents(path, is_dir); outside it: matched(path, is_dir)", mp.loc(mp.line),
+                    detail=str(sorted(sel, key=str))[:400],
+                    fail="match_path chooses between `path or any parent` and `path only` matching on something other than whether the probed path is under the origin, or asks about a "
+                         "different path (%s): directory patterns of global ignore files stop applying below a project ignore file" % str(sorted(sel - want9, key=str))[:200])
+    except Skip:
+        pass
+
     # ---- R03.8 simplify_path
     try:
-        sp = ctx.anchor_fn("R03.8", "ignore_files::simplify_path")
-        vals = {(q.out, q.val) for q in pathx.Enum().paths(thir.root(sp))}
-        ctx.require(vals == {("val", "NormalizePath::normalize(dunce::simplified(path))")}, "R03.8", "simplify-path", "simplify_path(p) = dunce::simplified(p).normalize() on every path",
-                    sp.loc(sp.line), detail=str(sorted(vals, key=str))[:300],
-                    fail="simplify_path no longer normalises unconditionally (%s): differently spelled paths of one directory get different trie keys, so the nearest ignore file is missed" % str(sorted(vals, key=str))[:200])
-        users = {}
-        for fname in ("get_applies_in_path", "IgnoreFilter::match_path"):
-            fn_ = ctx.anchor_fn("R03.8", "ignore_files::filter::" + fname)
-            users[fname] = sum(1 for g in [fn_] + facts.descendants(fn_) for c, _ in thir.calls_in(thir.root(g)) if strip_generics(c).endswith("ignore_files::simplify_path"))
-        ctx.require(all(v >= 1 for v in users.values()), "R03.8", "simplify-path-used", "both the key side (get_applies_in_path) and the probe side (match_path) simplify their path", detail=str(users),
-                    fail="a trie key or a probed path is no longer passed through simplify_path (%s)" % users)
+        simplify_rule(ctx, "R03.8")
     except Skip:
         pass
 
